@@ -253,6 +253,24 @@ func run() int {
 	for _, j := range jobs {
 		b, err := os.ReadFile(j.out)
 		var sh shard
+		if inflight, ierr := os.ReadFile(j.out + ".inflight"); ierr == nil && len(inflight) > 0 && !j.timedOut && j.exit != 0 {
+			// the unit died while a case was in flight (a fatal Go error cannot be recovered): that case is the finding
+			lg, _ := os.ReadFile(j.log)
+			var rf map[string]any
+			if json.Unmarshal(inflight, &rf) == nil && strings.Contains(string(lg), "fatal error") {
+				os.MkdirAll(filepath.Join(root, "out", id), 0o755)
+				dst := filepath.Join(root, "out", id, fmt.Sprintf("crash-%016x.json", fnv64(inflight)))
+				os.WriteFile(dst, inflight, 0o644)
+				first := ""
+				for _, l := range strings.Split(string(lg), "\n") {
+					if strings.Contains(l, "fatal error") {
+						first = l
+						break
+					}
+				}
+				viols = append(viols, violation{Replay: dst, Kind: "crash", Msg: fmt.Sprintf("unit %s: the process running the case died (%s)\n%v", j.u.Test, first, rf["msg"])})
+			}
+		}
 		if err != nil || json.Unmarshal(b, &sh) != nil {
 			lg, _ := os.ReadFile(j.log)
 			infraMsgs = append(infraMsgs, fmt.Sprintf("unit %s shard %d wrote no shard file (exit %d, timed out %v): %s", j.u.Test, j.shardN, j.exit, j.timedOut, tail(string(lg), 1500)))
@@ -534,6 +552,15 @@ func hashStr(s string) uint64 {
 	var h uint64 = 1469598103934665603
 	for i := 0; i < len(s); i++ {
 		h ^= uint64(s[i])
+		h *= 1099511628211
+	}
+	return h
+}
+
+func fnv64(b []byte) uint64 {
+	h := uint64(14695981039346656037)
+	for _, c := range b {
+		h ^= uint64(c)
 		h *= 1099511628211
 	}
 	return h
